@@ -9,6 +9,7 @@ import PdbModel.Hier
 import PdbModel.Validate
 import PdbModel.Gen.Elements
 import PdbModel.SGSym
+import PdbModel.Add
 namespace PdbModel
 
 structure SeqPos where
@@ -138,9 +139,7 @@ def rowsPartly (rows : List (Option (List Flt))) : Bool := rows.any (·.isSome)
 def Residue.addAtomRaw (r : Residue) (a : Atom) (name : String) (alt : Option String) : Residue :=
   let nm := (prepIdUpS name).getD name
   let al := alt.bind prepIdUpS
-  match r.conformers.findIdx? (fun c => c.name == nm && c.alt == al) with
-  | some i => { r with conformers := r.conformers.modify i (fun c => { c with atoms := c.atoms ++ [a] }) }
-  | none => { r with conformers := r.conformers ++ [{ name := nm, alt := al, atoms := [a] }] }
+  r.addAtomN ((nm, al), a)
 
 def chainsOfMap (m : ChainMap) : List Chain :=
   m.map fun (id, rs) => { id := String.ofList (trim id.toList), residues := rs.map (·.2) }
@@ -149,13 +148,15 @@ def flushModel (s : PState) : PState :=
   if s.cur.isEmpty then s
   else { s with models := s.models ++ [{ serial := s.curNumber, chains := chainsOfMap s.cur }], cur := [] }
 
+/-- `IndexMap` entry API as the reader uses it: the value under `k` is replaced by `g (some old)`, a missing key
+is appended with `g none` (insertion order = order of first appearance) -/
+def assocUpsert {K V : Type} [BEq K] (l : List (K × V)) (k : K) (g : Option V → V) : List (K × V) :=
+  match l with
+  | [] => [(k, g none)]
+  | (a, v) :: r => if a == k then (a, g (some v)) :: r else (a, v) :: assocUpsert r k g
+
 def upsertChain (m : ChainMap) (cid : String) (key : ResId) (f : Option Residue → Residue) : ChainMap :=
-  match m.findIdx? (·.1 == cid) with
-  | some i => m.modify i fun (id, rs) =>
-      match rs.findIdx? (·.1 == key) with
-      | some j => (id, rs.modify j fun (k, r) => (k, f (some r)))
-      | none => (id, rs ++ [(key, f none)])
-  | none => m ++ [(cid, [(key, f none)])]
+  assocUpsert m cid fun rs? => assocUpsert (rs?.getD []) key f
 
 def setAtf (m : ChainMap) (serial : Nat) (t : List Int) : ChainMap :=
   -- chains in reverse order, the first atom (in traversal order within that chain) with the serial number
